@@ -24,6 +24,7 @@ def render : Out → String
   | .localsEnd c m lo t => s!"locals.end cur={c} max={m} name={lo} type={t}"
   | .scr n t sz l lg none => s!"ev {n} {t} {sz} {l} {lg}"
   | .scr n t sz l lg (some k) => s!"ev {n} {t} {sz} {l} {lg} {k}"
+  | .scrEnd l t lg => s!"scratch.end last={l} tail={t} large={lg}"
   | .crash w => s!"crash model {w}"
 
 def afterEq (s : String) : Option Int := match s.splitOn "=" with
@@ -65,6 +66,10 @@ def parseLine (line : String) : Line :=
     match afterEq c, afterEq m, afterEq lo, afterEq t with
     | some c, some m, some lo, some t => .out (.localsEnd c.toNat m.toNat lo.toNat t.toNat)
     | _, _, _, _ => .other line
+  | ["scratch.end", l, t, lg] =>
+    match afterEq l, afterEq t, afterEq lg with
+    | some l, some t, some lg => .out (.scrEnd l.toNat t.toNat lg.toNat)
+    | _, _, _ => .other line
   | ["cfg", "maxlocals", n] => match n.toNat? with | some n => .cfg n | none => .other line
   | "result" :: rest => .result rest
   | "probe" :: _ => .probe (line.drop 6).toString
